@@ -70,7 +70,7 @@ m = {
     ],
     "checks": [],
     "not_applicable": [],
-    "notes": "Technique family: deterministic simulation with fault injection. C13/C19/C20 are the properties with a schedule, clock, stream fault or history in their statement; the other 17 are pure functions of their inputs (DESIGN.md section 6).",
+    "notes": "Technique family: deterministic simulation with fault injection. C13/C19/C20 are the properties with a schedule, clock, stream fault or history in their statement; the other 17 are pure functions of their inputs (DESIGN.md section 6). No hook was needed in /repo (source_commits is empty); /repo carries eleven unguarded 'fix:' commits for genuine defects the checks found (known_findings.json, 'fixed' entries; DESIGN.md 12.2); known_findings.json has no 'known' entry, so nothing is suppressed. Other entry points: ./check selftest (determinism), ./check mutants all (sensitivity against mutants/ and seeded/, results in evidence/mutants.json), ./check <ID> --replay FILE.",
 }
 for p in props:
     pid = p["id"]
